@@ -188,6 +188,7 @@ def execute(prop, desc):
             kinds = ["error", "die-before", "die-after"]
             if opname == "write" and ops[k - 1][1] and ops[k - 1][1] > 1:
                 kinds.append("short")
+                kinds.append("partial")
             for kind in kinds:
                 todo.append((k, kind))
         if only is not None:
